@@ -13,7 +13,11 @@ use crate::subjects::alpha::{self, Verdict};
 use serde_json::{Value, json};
 
 pub const ATOMS: usize = 11;
-pub const VARIANTS: [&str; 3] = ["plain", "x is also a parameter", "x is also a module constant"];
+pub const VARIANTS: [&str; 4] = ["plain", "x is also a parameter", "x is also a module constant", "behind a function that skips declarations of x and y"];
+
+/// The function in front of the judged one in variant 3: it jumps over declarations of x and y
+/// that it never uses afterwards (valid), and declares the labels A and B.
+const OTHER_FUNCTION: &str = "fn other(c: i32)\n{\n\tvar acc: i32 = 0;\n\tif c == 0 goto A;\n\tvar x: i32 = 1;\n\t{\n\t\tvar y: i32 = 2;\n\t\tif c == 1 goto B;\n\t\tacc = x + y;\n\t}\n\tA:\n\tB:\n\tacc = c;\n}\n";
 
 fn atom_text(a: u8) -> &'static str
 {
@@ -44,6 +48,11 @@ pub fn render(variant: usize, forest: &[B]) -> (String, Vec<usize>)
 	{
 		text.push_str("const x: i32 = 7;\n");
 		first_body_line += 1;
+	}
+	if variant == 3
+	{
+		text.push_str(OTHER_FUNCTION);
+		first_body_line += OTHER_FUNCTION.lines().count();
 	}
 	if variant == 1
 	{
@@ -133,7 +142,7 @@ fn loops_well_placed(forest: &[B], is_function_body: bool) -> bool
 pub fn drive(d: &mut Driver)
 {
 	let quick = d.quick();
-	let plan: Vec<(usize, usize, usize)> = if quick { vec![(0, 6, 3), (1, 5, 3), (2, 5, 3)] } else { vec![(0, 7, 3), (1, 6, 3), (2, 6, 3)] };
+	let plan: Vec<(usize, usize, usize)> = if quick { vec![(0, 6, 3), (1, 5, 3), (2, 5, 3), (3, 5, 3)] } else { vec![(0, 7, 3), (1, 6, 3), (2, 6, 3), (3, 6, 3)] };
 	d.bound("atoms", json!((0..ATOMS as u8).map(atom_text).collect::<Vec<_>>()));
 	d.bound("variants (max statements, block nesting depth)", json!(plan.iter().map(|(v, n, dep)| json!({"variant": VARIANTS[*v], "max_statements": n, "depth": dep})).collect::<Vec<_>>()));
 	d.bound("excluded by construction", json!("bodies with a label error according to the C04 model, and bodies with a misplaced loop"));
@@ -324,7 +333,7 @@ fn judge(variant: usize, forest: &[B], w: &mut WorkerCtx)
 	}
 	w.result.states += 1;
 	let (text, atom_lines) = render(variant, forest);
-	let outer: Vec<usize> = if variant == 0 { vec![] } else { vec![0] };
+	let outer: Vec<usize> = if variant == 0 || variant == 3 { vec![] } else { vec![0] };
 	let m = vars::judge(&vbody, &outer);
 	let desc = || json!({"variant": variant, "forest": crate::checks::c04::encode_forest(forest), "text": text});
 	let d = desc().to_string().into_bytes();
